@@ -145,6 +145,18 @@ func vfAttackTunnel(port int, kind string, hello string, hold time.Duration, wai
 	return p
 }
 
+// vfSlowAnswerConn delivers what the server answers only after a delay (first read): the client's grace period is over by then.
+type vfSlowAnswerConn struct {
+	net.Conn
+	delay time.Duration
+	once  sync.Once
+}
+
+func (v *vfSlowAnswerConn) Read(p []byte) (int, error) {
+	v.once.Do(func() { time.Sleep(v.delay) })
+	return v.Conn.Read(p)
+}
+
 // vfSplitConn sends the first write (the greeting) in two pieces.
 type vfSplitConn struct {
 	net.Conn
@@ -223,7 +235,7 @@ func TestVF_C17(t *testing.T) {
 				vfTunnelCase(c, dir, vfTunnelPlan{When: "racing", Connector: "ok", Attackers: []string{"twin-right-greeting"}})
 			}})
 		}
-		for _, conn := range []string{"nil", "dead", "late-500", "late-900", "late-1100", "late-3000", "split", "split"} {
+		for _, conn := range []string{"nil", "dead", "late-500", "late-900", "late-1100", "late-3000", "split", "split", "answer-late"} {
 			for rep := 0; rep < vfPick(2, 10); rep++ {
 				dir, conn, rep := dir, conn, rep
 				cases = append(cases, vfCase{ID: fmt.Sprintf("%sconn-%s-%s-%d", ytag, dir, conn, rep), Run: func(c *vfCtx) {
@@ -381,6 +393,14 @@ func vfTunnelCase(c *vfCtx, dir string, plan vfTunnelPlan) {
 				return nil
 			}
 			return &vfSplitConn{Conn: conn}
+		case "answer-late":
+			// the greeting goes out at once and the server adopts the connection, but its answer reaches the client
+			// after the grace period: the client goes on in-band, and so must the server
+			conn := dial()
+			if conn == nil {
+				return nil
+			}
+			return &vfSlowAnswerConn{Conn: conn, delay: 1700 * time.Millisecond}
 		case "late-500", "late-900", "late-1100", "late-3000":
 			var ms int
 			fmt.Sscanf(plan.Connector, "late-%d", &ms)
@@ -631,7 +651,7 @@ func vfTunnelCase(c *vfCtx, dir string, plan vfTunnelPlan) {
 			// property allows; under 40 simultaneous probing connections and load it happens: recorded
 			c.Obs("fallback_despite_timely_connector", 1)
 		}
-	case "nil", "dead", "late-3000":
+	case "nil", "dead", "late-3000", "answer-late":
 		if tunnelUsed {
 			c.Viol("c17-tunnel-used-unexpectedly", "plan %+v: no tunnel could be established in time, yet the server says the tunnel is connected", plan)
 			return
